@@ -41,13 +41,16 @@ pub fn fold_exit(p: &mut Vec<u8>) {
 }
 
 /// a random well-formed, terminating, mostly in-bounds program
-pub struct GenCfg { pub max_len: usize, pub helpers: Vec<u32>, pub mem_len: usize, pub mbuff_len: usize, pub calls: bool }
+pub struct GenCfg { pub max_len: usize, pub helpers: Vec<u32>, pub mem_len: usize, pub mbuff_len: usize, pub calls: bool, pub engine_safe: bool }
 
 pub fn random_program(r: &mut Rng, cfg: &GenCfg) -> Vec<u8> {
     // layout: prologue, body blocks, exit, then local functions (each ending in exit)
     let mut p: Vec<u8> = vec![];
     // r6 := packet/metadata pointer (r1); r7 is the loop counter
     p.extend(ins(0xbf, 6, 1, 0, 0));
+    if cfg.engine_safe {   // compiled code starts with garbage in every register but r1 and r10
+        for rr in [0u8, 1, 2, 3, 4, 5, 7, 8, 9] { let v = r.next(); p.extend(lddw(rr, v)); }
+    }
     let nblocks = 1 + r.below(6) as usize;
     let mut funcs: Vec<Vec<u8>> = vec![];
     let nfuncs = if cfg.calls { r.below(3) as usize } else { 0 };
@@ -131,10 +134,12 @@ fn block(r: &mut Rng, cfg: &GenCfg, n: usize, in_func: bool) -> Vec<u8> {
                 b.extend(ins(0x17, 7, 0, 0, 1));
                 b.extend(ins(0x55, 7, 0, -(k as i16 + 2), 0));
             }
-            17 if !cfg.helpers.is_empty() => { let h = *r.pick(&cfg.helpers); b.extend(ins(0x85, 0, 0, 0, h as i32)); }
+            17 if !cfg.helpers.is_empty() => { let h = *r.pick(&cfg.helpers); b.extend(ins(0x85, 0, 0, 0, h as i32));
+                if cfg.engine_safe { for rr in 1..6u8 { let v = if r.chance(1, 2) { *r.pick(V64) } else { r.next() }; b.extend(lddw(rr, v)); } } }
             18 => { // xadd on the stack, aligned
                 let (opc, w) = if r.chance(1, 2) { (0xc3u8, 4i16) } else { (0xdbu8, 8i16) };
                 let off = -(w * (1 + r.below(8) as i16));
+                if cfg.engine_safe { b.extend(ins(0x7b, 10, sv, off & !7, 0)); }
                 b.extend(ins(opc, 10, sv, off, 0));
                 b.extend(ins(if w == 4 { 0x61 } else { 0x79 }, d, 10, off, 0));
             }
